@@ -17,6 +17,14 @@ CYCLE = '250ms'
 DEADLINE = 90.0        # a quiet phase converges in about 3 s; this is the bound after which it is called stuck
 
 
+class QuietServer(ThreadingHTTPServer):
+    """a peer that goes away in the middle of an answer (a killed process, a scrape that timed out) is not worth a trace"""
+    daemon_threads = True
+
+    def handle_error(self, request, client_address):
+        pass
+
+
 class TargetSrv:
     def __init__(self, tid, series):
         self.tid, self.series, self.alive = tid, series, True
@@ -36,7 +44,7 @@ class TargetSrv:
                 self.send_header('Content-Length', str(len(body)))
                 self.end_headers()
                 self.wfile.write(body)
-        self.srv = ThreadingHTTPServer(('127.0.0.1', 0), H)
+        self.srv = QuietServer(('127.0.0.1', 0), H)
         self.addr = '127.0.0.1:%d' % self.srv.server_address[1]
         threading.Thread(target=self.srv.serve_forever, daemon=True).start()
 
@@ -72,7 +80,7 @@ class FakeProm:
                 self.send_header('Content-Type', 'application/json')
                 self.end_headers()
                 self.wfile.write(body)
-        self.srv = ThreadingHTTPServer(('127.0.0.1', 0), H)
+        self.srv = QuietServer(('127.0.0.1', 0), H)
         self.url = 'http://127.0.0.1:%d' % self.srv.server_address[1]
         threading.Thread(target=self.srv.serve_forever, daemon=True).start()
         threading.Thread(target=self.loop, daemon=True).start()
